@@ -16,11 +16,37 @@
                                 exactly.
     `C14_textLoadsB_complete`   the executable check `C01_textLoadsB` is TRUE on every text-safe routine
                                 (its soundness is `C01_textLoadsB_sound`, Props/C01.lean).
-  Proofs: Scc/StringLemmas.lean, Scc/X86/Loader{Lemmas,Instr,Code,Text}.lean.
+    `C14_routine_loads`         EVERY ROUTINE OF THE BACKEND MODEL LOADS: for every program in range
+                                (`ProgInRange`) whose names are text-safe (`C14_namesTextSafe`, DECIDABLE, a
+                                check on the NAMES of the linearized program only: identifiers consist of
+                                symbol characters, type names have no line break, the mangled name of every
+                                type a `switch`/`create` dispatches on consists of symbol characters), the
+                                routine `intoRoutine (compileX86 p)` satisfies `TextLoads` — for all programs,
+                                both hook settings, every counter start, no evaluation of the parser.
+                                Through: `C14_routine_textOK` (every item passes `codeTextOK`), which rests on
+                                the generic lifting `Loader.post_compileR_names` (which strings the generic
+                                generator hands to label / comment methods: `f_`, `Ty_7`, `Ty_7_Cons`, `lab7`,
+                                `cleanup`; comments built from names) and on the x86-64 instance
+                                `Loader.opsNames_x86` (every backend method, memory methods included).
+                                NOTE `LabelSafe` alone does not give it: `LabelSafe` speaks about collisions
+                                of names, not about their characters (a definition named `a b` is `LabelSafe`
+                                and its label `a b_` does not parse: `C14_names_needed`).
+    `C14_wfCheck_items`         the validator `wfCheck` on the text of a backend routine is `wfItems` on items that
+                                agree with the routine up to comment text (never `PARSE-ERROR`);
+    `C14_routineLoadsB_true`    hence the executable `C01_routineLoadsB` is TRUE without evaluation, and
+    `C06_int_programs_loaded`   `C06_int_programs_text` WITHOUT the hypothesis `TextLoads` (Theorem A ∘ B on the
+                                text of the routine, for integer programs with text-safe names);
+    `C01_intChecks_of_names`    the decidable `C01_intChecks` follows from capacity, `IntProg`, range and the
+                                names check (no parser run).
+  NOT proved here: that every program the front end accepts has text-safe names at stage 5 (the check
+  `C14_namesTextSafe` is evaluated per program; it holds on all 249 accepted programs of /repo and of
+  /verif/gen/corpus).
+  Proofs: Scc/StringLemmas.lean, Scc/X86/Loader{Lemmas,Instr,Code,Text,Names,X86Names}.lean.
 -/
 import Scc.Props.C06X86
 import Scc.Props.C01Checks
 import Scc.X86.LoaderText
+import Scc.X86.LoaderX86Names
 
 namespace Scc.X86
 
@@ -126,6 +152,125 @@ def C14_loaderExample : List Code :=
 
 example : TextLoads C14_loaderExample := C14_loader _ (by decide)
 
+
+/-! ## every routine of the backend model loads -/
+
+/-- **the decidable hypothesis on the names of the linearized program** (Scc/X86/LoaderNames.lean
+    `progNamesOK`, with the symbol characters of the x86-64 loader) -/
+def C14_namesTextSafe (p : AxCut.Prog) : Bool := progNamesOK okcX p
+
+theorem codeTextOK_of_codeOK {c : Code} (hr : ∀ r ∈ codeRegs c, r < 16) (hn : nmB c = true) :
+    codeTextOK c = true := by
+  have hsym : ∀ l, labOKB l = true → symOK l = true := by
+    intro l hl
+    simp only [labOKB, Bool.and_eq_true, Bool.not_eq_true', List.all_eq_true, Option.isNone_iff_eq_none] at hl
+    obtain ⟨⟨⟨h1, h2⟩, h3⟩, h4⟩ := hl
+    simp only [symOK, Bool.and_eq_true, Bool.not_eq_true', List.all_eq_true, Option.isNone_iff_eq_none]
+    refine ⟨⟨⟨?_, fun c hc => by simpa [okcX] using h2 c hc⟩, h3⟩, h4⟩
+    rw [String.isEmpty_eq_false_iff]
+    intro e; rw [e] at h1; simp at h1
+  simp only [codeTextOK, Bool.and_eq_true, List.all_eq_true, decide_eq_true_eq]
+  refine ⟨⟨⟨hr, ?_⟩, ?_⟩, ?_⟩
+  · cases c <;> first | rfl | exact hsym _ hn
+  · cases c <;> first | rfl | exact hsym _ hn
+  · cases c <;> first | rfl | exact hsym _ hn | exact hn
+
+/-- every item of the routine emitted for a program in range with text-safe names passes `codeTextOK` -/
+theorem C14_routine_textOK {p : AxCut.Prog} {hooks : Bool} {c0 : Nat} {body routine : List Code} {nargs : Nat}
+    (hrange : ProgInRange p) (hnames : C14_namesTextSafe p = true)
+    (h : compileX86 p hooks c0 = .ok (body, nargs)) (hr : intoRoutine body nargs = .ok routine) :
+    ∀ code ∈ routine, codeTextOK code = true := by
+  intro c hc
+  have hn := routine_namesOK hnames h hr
+  simp only [NmOK, List.all_eq_true] at hn
+  exact codeTextOK_of_codeOK (routine_rangesOK hrange h hr c hc).1 (hn c hc)
+
+/-- **EVERY ROUTINE OF THE BACKEND MODEL LOADS** (all programs in range with text-safe names, both hook
+    settings, every counter start) -/
+theorem C14_routine_loads {p : AxCut.Prog} {hooks : Bool} {c0 : Nat} {body routine : List Code} {nargs : Nat}
+    (hrange : ProgInRange p) (hnames : C14_namesTextSafe p = true)
+    (h : compileX86 p hooks c0 = .ok (body, nargs)) (hr : intoRoutine body nargs = .ok routine) :
+    TextLoads routine :=
+  C14_loader routine (C14_routine_textOK hrange hnames h hr)
+
+/-- the C14 validator on the text of a backend routine never ends in `PARSE-ERROR`: it is the item-level
+    validator `wfItems` on items that agree with the routine up to the text of comments (the part
+    "print → parse round trip of the text" of `C14_statement_refined`, Props/C14X86.lean) -/
+theorem C14_wfCheck_items {p : AxCut.Prog} {hooks : Bool} {c0 : Nat} {body routine : List Code} {nargs : Nat}
+    (hrange : ProgInRange p) (hnames : C14_namesTextSafe p = true)
+    (h : compileX86 p hooks c0 = .ok (body, nargs)) (hr : intoRoutine body nargs = .ok routine) :
+    ∃ items, wfCheck (printProg routine) = wfItems items ∧
+      (items.map (·.1)).map Ref.stripC = routine.map Ref.stripC := by
+  obtain ⟨items, h1, h2⟩ := C14_routine_loads hrange hnames h hr
+  exact ⟨items, by unfold wfCheck; rw [h1], h2⟩
+
+/-- the executable per-program check of the driver is true WITHOUT evaluation -/
+theorem C14_routineLoadsB_true (hooks : Bool) {q5 : AxCut.Prog} (hrange : ProgInRange q5)
+    (hnames : C14_namesTextSafe q5 = true) : Scc.Props.C01_routineLoadsB hooks q5 = true := by
+  unfold Scc.Props.C01_routineLoadsB
+  split
+  · rename_i body nargs hcomp
+    split
+    · rename_i routine hinto
+      exact C14_textLoadsB_complete routine (C14_routine_textOK hrange hnames hcomp hinto)
+    · rfl
+  · rfl
+
+section
+open Scc.AxCut Scc.Backend Scc.Backend.Abs Scc.Backend.Sim Scc.X86.Ref
+open Scc.Props.C06Generic (IntProg Reachable WithinCapacity)
+open Scc.Props.C14Generic (LabelSafe)
+
+/-- **Theorem A ∘ B on the TEXT of the routine, no loader hypothesis**: `C06_int_programs_text` with
+    `TextLoads routine` replaced by the decidable names check -/
+theorem C06_int_programs_loaded (p : AxCut.Prog) (args : List Word) (hooks : Bool) (body routine : List Code)
+    (nargs : Nat) (d0 : Def)
+    (hsafe : LabelSafe p = true) (htp : LinTypedProg p) (hip : IntProg p) (hrange : ProgInRange p)
+    (hnames : C14_namesTextSafe p = true)
+    (hcompX : compileX86 p hooks 0 = .ok (body, nargs)) (hrout : intoRoutine body nargs = .ok routine)
+    (hd : p.defs.head? = some d0)
+    (hcap : ∀ st, Reachable p ⟨d0.ctx, args.map .int, d0.body⟩ st → WithinCapacity st.ctx)
+    (fuel : Nat) (out : List (Bool × Word)) (v : Word) (hrun : Pos.run p args fuel = ⟨out, .done v⟩)
+    (cfg : MonCfg) (MO : MachOK cfg.mach) (hheap : cfg.heap = false) :
+    ∃ fuel', (run (printProg routine) args fuel' cfg).out = out ∧
+      (run (printProg routine) args fuel' cfg).res = .done v :=
+  C06_int_programs_text p args hooks body routine nargs d0 hsafe htp hip hrange hcompX hrout hd hcap fuel out v
+    hrun cfg MO hheap (C14_routine_loads hrange hnames hcompX hrout)
+end
+
+/-- `LabelSafe` does not imply that the text loads: the program `def "a b"(x : ext i64) { exit x }` is
+    label-safe and compiles, its body defines the label `a b_`, which is not a symbol of the loader
+    (`#eval`: `parseText` of its routine fails with `error line 28: a b_:`) -/
+def C14_badNames : AxCut.Prog := ⟨[⟨⟨"a b", 0⟩, [⟨⟨"x", 1⟩, .ext, .i64⟩], .exit ⟨"x", 1⟩⟩], [], 1⟩
+
+theorem C14_names_needed :
+    Scc.Props.C14Generic.LabelSafe C14_badNames = true ∧ C14_namesTextSafe C14_badNames = false ∧
+    (match compileX86 C14_badNames true 0 with
+     | .ok (body, _) => body.contains (.LAB "a b_")
+     | .error _ => false) = true ∧
+    codeTextOK (.LAB "a b_") = false := by decide
+
+/-- the names of the counting loop of C06X86 are text-safe -/
+example : C14_namesTextSafe C06_loopProg = true := by decide
+
+/-- … so the routine emitted for it (with hooks) loads: every hypothesis of `C14_routine_loads` holds -/
+example : ∃ body routine, compileX86 C06_loopProg true 0 = .ok (body, 2) ∧
+    intoRoutine body 2 = .ok routine ∧ TextLoads routine := by
+  have hok : ∃ r, compileX86 C06_loopProg true 0 = .ok r := ⟨_, rfl⟩
+  obtain ⟨⟨body, nargs⟩, hcomp⟩ := hok
+  have hnargs : nargs = 2 := by
+    have : compileX86 C06_loopProg true 0 = .ok ((compileX86 C06_loopProg true 0 |>.toOption.getD ([], 0)).1, 2) := rfl
+    rw [hcomp] at this
+    injection this with this
+    injection this
+  subst hnargs
+  have hok2 : ∃ r, intoRoutine body 2 = .ok r := by
+    have : ∃ moves, moveArguments 2 = .ok moves := ⟨_, rfl⟩
+    obtain ⟨moves, hm⟩ := this
+    exact ⟨_, by unfold intoRoutine; rw [setup_eq 2 moves hm]⟩
+  obtain ⟨routine, hrout⟩ := hok2
+  exact ⟨body, routine, hcomp, hrout, C14_routine_loads C06_loopProg_inRange (by decide) hcomp hrout⟩
+
 end Scc.X86
 
 #print axioms Scc.X86.C14_splitLines
@@ -136,3 +281,9 @@ end Scc.X86
 #print axioms Scc.X86.C14_loader
 #print axioms Scc.X86.C14_loader_exact
 #print axioms Scc.X86.C14_textLoadsB_complete
+#print axioms Scc.X86.C14_routine_textOK
+#print axioms Scc.X86.C14_routine_loads
+#print axioms Scc.X86.C14_routineLoadsB_true
+#print axioms Scc.X86.C14_wfCheck_items
+#print axioms Scc.X86.C06_int_programs_loaded
+#print axioms Scc.X86.C14_names_needed
